@@ -309,6 +309,7 @@ func checkC16(p *Prog, r *Report) {
 	r.Rule("R16b", "MapClear removes every entry: its body is the clear builtin applied to the parameter (a range/delete loop cannot remove NaN keys)", 1)
 	r.Rule("R16c", "Assume/Assert panic exactly when the argument is false: exhaustive evaluation of the function's control-flow graph under c=true and c=false (every branch condition must be the parameter or its negation): panic reachable iff c=false, normal return reachable iff c=true", 4)
 	r.Rule("R16d", "forwarding shape: WaitTimeout is a single call of primitive.WaitTimeout(cond, timeoutMs) with parameters in order; NewProph forwards to primitive.NewProph; ProphId is an alias of primitive.ProphId; Sleep passes its argument to time.Sleep in nanoseconds; Linearize does nothing", 5)
+	c16LeftoverWaiter(p, r)
 	r.Assume = append(r.Assume, "fmt %d on uint64 is canonical decimal", "WaitTimeout's timing and lock state are implemented in module goose-lang/primitive and are timing-dependent: not decided")
 	// R16a
 	if f := p.Func(machinePkg, "UInt64ToString"); f == nil {
@@ -447,7 +448,42 @@ func checkC16(p *Prog, r *Report) {
 		}
 		r.Check("R16d", "machine."+name+" forwards to "+target, f.Pos(), ok, why)
 	}
-	checkForward("WaitTimeout", "github.com/goose-lang/primitive.WaitTimeout", true)
+	// WaitTimeout: forwarded, or implemented here — then the structural part of its contract is decided on its own
+	// abstract paths: every return re-acquires the caller's lock last (cond.L.Lock() is the last operation on the
+	// lock), and the timer is armed with the timeout parameter in milliseconds
+	if wt := p.Func(machinePkg, "WaitTimeout"); wt != nil && len(blockOfCall(p, wt, "github.com/goose-lang/primitive.WaitTimeout")) == 0 && len(wt.Params) == 2 {
+		r.Func(FuncName(wt))
+		ips, okp := p.ipaths(wt)
+		ok, why, nRet := okp, "", 0
+		if !okp {
+			why = "the abstract paths of WaitTimeout could not be enumerated"
+		}
+		cond, tmo := wt.Params[0].Name(), wt.Params[1].Name()
+		for _, ip := range ips {
+			if ip.Exit != "return" {
+				continue
+			}
+			nRet++
+			last, timer := "", false
+			for _, e := range ip.Events {
+				if (e.Callee == "invoke:Locker.Lock" || e.Callee == "invoke:Locker.Unlock") && len(e.Args) > 0 && strings.HasPrefix(e.Args[0], cond+".L") {
+					last = e.Callee
+				}
+				if (e.Callee == "time.After" || e.Callee == "time.NewTimer" || e.Callee == "time.AfterFunc") && len(e.Args) > 0 && strings.Contains(e.Args[0], tmo) && strings.Contains(e.Args[0], "1000000") {
+					timer = true
+				}
+			}
+			if last != "invoke:Locker.Lock" {
+				ok, why = false, "a return of WaitTimeout is not preceded by "+cond+".L.Lock() as the last operation on the caller's lock: "+ip.Trace
+			}
+			if !timer {
+				ok, why = false, "a returning path arms no timer with "+tmo+" milliseconds: "+ip.Trace
+			}
+		}
+		r.Check("R16d", "machine.WaitTimeout (implemented here) returns with the lock re-acquired and a timer of timeoutMs ms", wt.Pos(), ok && nRet > 0, why)
+	} else {
+		checkForward("WaitTimeout", "github.com/goose-lang/primitive.WaitTimeout", true)
+	}
 	checkForward("NewProph", "github.com/goose-lang/primitive.NewProph", true)
 	if mp := p.All[machinePkg]; mp != nil {
 		tn, _ := mp.Types.Scope().Lookup("ProphId").(*types.TypeName)
